@@ -135,7 +135,10 @@ def crashEngine (j : Json) : R Json := do
   match (← str j "op") with
   | "accept" =>
     let evs ← (← arr j "events").toList.mapM parseCEv
-    let r := acceptGo (evs.length + 1) { st := State.init } evs 0
+    -- optional configuration (default 0/0): source the entries are tagged with / looked up under
+    let tag := (j.getObjValAs? Nat "tagSrc").toOption.getD 0
+    let look := (j.getObjValAs? Nat "lookSrc").toOption.getD tag
+    let r := acceptGo (evs.length + 1) { st := State.initCfg tag look } evs 0
     let s := r.st
     let content := s.wal.map (fun e =>
       Json.arr #[Json.num (Int.ofNat e.off), Json.num (Int.ofNat (countOf s.content e.off))])
